@@ -215,20 +215,20 @@ func (r *scopeRegistry) Subscope(parent *scope, prefix string, tags map[string]s
 	tags = parent.copyAndSanitizeMap(tags)
 	sanitizedKey = scopeRegistryKey(prefix, parent.tags, tags)
 
-	// The scope may also be known under its sanitized key only (it was obtained
-	// through another spelling of the same tags). A closed one must be reported
-	// and replaced here as well rather than handed out again.
-	if !ok {
-		if ss, found := r.lockedLookup(subscopeBucket, sanitizedKey); found &&
-			ss.closed.Load() && !ss.testScope {
-			s, ok = ss, true
-			switch {
-			case parent.reporter != nil:
-				s.report(parent.reporter)
-			case parent.cachedReporter != nil:
-				s.cachedReport()
-			}
+	// The scope registered under the sanitized key can be another closed scope
+	// (the requested spelling is new, or still an alias of an older closed
+	// scope): it must be reported and replaced as well rather than handed out
+	// again.
+	if ss, found := r.lockedLookup(subscopeBucket, sanitizedKey); found && ss != s &&
+		ss.closed.Load() && !ss.testScope {
+		switch {
+		case parent.reporter != nil:
+			ss.report(parent.reporter)
+		case parent.cachedReporter != nil:
+			ss.cachedReport()
 		}
+		r.removeWithRLock(subscopeBucket, sanitizedKey, ss)
+		ss.clearMetrics()
 	}
 
 	// If a scope was found above but we didn't return, we need to remove the
